@@ -9,6 +9,7 @@ from vlib import common
 from vlib import phys_common as pc
 
 PID = "C11"
+PANEL = [(0.1, 4.0), (0.15, 2.0), (0.1, 5.0), (0.12, 3.0), (0.2, 1.0), (0.08, 6.0), (0.1, 3.0)]
 
 
 def run(tier):
@@ -33,30 +34,50 @@ def run(tier):
             bal = create_balance(gname, dname)
             for N in ([24] if quick else [16, 24, 36]):
                 dirs = [j * 360.0 / N for j in range(N)]
-                for bi_, B in enumerate([1, 4] if quick else [1, 2, 5, 8]):
+                for bi_, B in enumerate([1, 4, -7] if quick else [1, 2, 5, 8, -7]):
                     f = f_log if (bi_ + len(gname + dname)) % 2 else f_lin
                     vds, depths = [], []
+                    panel = B < 0
+                    B = abs(B)
                     for b in range(B):
                         fp = rng.uniform(0.1, 0.25)
                         # steep enough for non-zero dissipation: Hs ~ 0.2..0.3 * g/(2 pi fp)^2 / ... (fully developed and younger seas)
                         hs = rng.uniform(0.8, 1.6) * 0.24 * 9.81 / (2 * math.pi * fp * 1.14) ** 2
-                        vds.append(pc.sea(f, dirs, fp, hs, rng.uniform(0, 360), rng.uniform(25, 45)))
-                        depths.append(rng.choice([np.inf, np.inf, 40.0]))
+                        if panel:
+                            # fixed panel of mature seas whose balance closes at light winds (2..5 m/s for st6), far below the first
+                            # guess from the equilibrium range: the solver has to travel through the whole bracket search
+                            fp, hs = PANEL[b]
+                            f = f_lin
+                        vds.append(pc.sea(f, dirs, fp, hs, 40.0 if panel else rng.uniform(0, 360), 30.0 if panel else rng.uniform(25, 45)))
+                        depths.append(np.inf if panel else rng.choice([np.inf, np.inf, 40.0]))
                     # one member without dissipation (a very low swell) and the empty spectrum
-                    if B >= 4:
+                    if B >= 4 and not panel:
                         vds[-1] = pc.sea(f, dirs, 0.07, 0.05, 100.0, 15.0)
                         vds[-2] = np.zeros((len(f), N))
+                        # the calm members in every position: each directly BEFORE a wind sea, and at the end
+                        order = [B - 2, 0, B - 1] + list(range(1, B - 2))
+                        if (len(gname + dname) + N) % 2:
+                            order = order[::-1]
+                        vds, depths = [vds[i] for i in order], [depths[i] for i in order]
+                    if panel:
+                        # light-wind seas directly before seas that need a strong wind
+                        vds = vds + [pc.sea(f, dirs, 0.22, 2.0, 40.0, 30.0), pc.sea(f, dirs, 0.18, 3.2, 40.0, 30.0)]
+                        depths = depths + [np.inf, np.inf]
+                        B = len(vds)
                     spec = pc.spectrum(f, dirs, vds, depths)
                     with_rate = (bi_ % 2 == 1) if quick else rng.random() < 0.5
                     # rate of change of a turning and growing sea: (spectrum rotated by two bins - spectrum) / 1 h + growth
                     rates = [(np.roll(np.asarray(v), 2, axis=1) - np.asarray(v)) / 3600.0 + 1e-5 * np.asarray(v) for v in vds]
                     dEdt = pc.spectrum(f, dirs, rates, depths) if with_rate else None
                     ctx = {"pair": "%s/%s" % (gname, dname), "N": N, "batch": B, "rate_of_change": with_rate}
+                    # the balance the estimate has to close is evaluated with NEW source-term objects: the estimate of the long-lived
+                    # pair must not depend on what that pair was used for before (grids of the same shape, other spectra)
+                    ref = create_balance(gname, dname)
                     try:
                         res = estimate_u10_from_source_terms(spec, bal, time_derivative_spectrum=dEdt)
                         u10, wdir = res["u10"].values, res["direction"].values
-                        dbulk = bal.dissipation.bulk_rate(spec).values
-                        ddir = bal.dissipation.mean_direction_degrees(spec).values
+                        dbulk = ref.dissipation.bulk_rate(spec).values
+                        ddir = ref.dissipation.mean_direction_degrees(spec).values
                     except Exception as e:
                         chk.violation("raise:%s" % type(e).__name__, "wind inversion raised %s" % type(e).__name__, dict(ctx, error=str(e)[:300]))
                         continue
@@ -66,7 +87,7 @@ def run(tier):
 
                     def F(u_vec):
                         """the balance the inversion has to close, from the code's own bulk rates, for all points at once"""
-                        g = bal.generation.rate(spec, pc.da(u_vec), pc.da(ddir)).values
+                        g = ref.generation.rate(spec, pc.da(u_vec), pc.da(ddir)).values
                         out = np.sum(g * df[None, :, None] * dd[None, None, :], axis=(1, 2)) + dbulk
                         if dvals is not None:
                             out = out - np.sum(np.where(g > 0, dvals, 0.0) * df[None, :, None] * dd[None, None, :], axis=(1, 2))
@@ -102,7 +123,11 @@ def run(tier):
                             lo, hi = F(np.where(np.arange(B) == b, u10[b] - 0.03, 10.0))[b], F(np.where(np.arange(B) == b, u10[b] + 0.03, 10.0))[b]
                             mid = F(np.where(np.arange(B) == b, u10[b], 10.0))[b]
                             evals += 3
-                            if not (lo * hi <= 0 or abs(mid) <= 2e-3 * abs(dbulk[b])):
+                            # closure to within the solver's step tolerance (0.01 m/s): the balance changes sign within +-0.03 m/s, or its
+                            # value at the estimate is what a step of 0.015 m/s along the local slope explains (the balance may be
+                            # undefined on one side: the roughness iteration has no solution for very light winds)
+                            slopes = [abs(v - mid) / 0.03 for v in (lo, hi) if math.isfinite(v)]
+                            if not (lo * hi <= 0 or abs(mid) <= 2e-3 * abs(dbulk[b]) or (slopes and abs(mid) <= 0.015 * max(slopes))):
                                 chk.violation("closure", "input + dissipation does not vanish at the estimated U10 (no sign change within +-0.03 m/s)",
                                               dict(cb, F_minus=float(lo), F_at=float(mid), F_plus=float(hi)))
                     # batch independence
